@@ -119,6 +119,19 @@ def graph_cyclic_from(adj, root):
     return False
 
 
+def _reaches(adj, a, b):
+    seen, todo = {a}, [a]
+    while todo:
+        x = todo.pop()
+        if x == b:
+            return True
+        for y in adj.get(x, ()):
+            if y not in seen:
+                seen.add(y)
+                todo.append(y)
+    return False
+
+
 # ------------------------------------------------------------------ generators
 
 def mk_rules(n, labels, adj, rng, kinds="req", leaves_obs=True):
@@ -563,6 +576,31 @@ def gen_scan_cycle(rng):
                 rules2=rules, env2=env2, root2=rng.choice(chain), discipline=True, restart=restart, db=1 if restart else rng.choice([0, 1]))
 
 
+def gen_rebuilt_key(rng):
+    """The requested key is built once (acyclic branch), then an external value flips its branch into keys never built before that
+    form a cycle NOT containing it; second build on the same engine or after a restart over the database."""
+    ncyc, nmid = rng.randint(1, 3), rng.randint(0, 2)
+    labels = rng.sample(POOL, 2 + nmid + ncyc + 1)
+    R0, L, other = labels[0], labels[1], labels[2]
+    mids, cyc = labels[3:3 + nmid], labels[3 + nmid:]
+    rules = {L: dict(sig=0, obs=1), other: dict(sig=0, obs=1)}
+    path = mids + [cyc[0]]
+    for i, k in enumerate(mids):
+        rules[k] = dict(sig=0, obs=0, req=[path[i + 1]] + ([other] if rng.random() < 0.5 else []))
+    for i, k in enumerate(cyc):
+        rules[k] = dict(sig=0, obs=0, **{rng.choice(["req", "req", "follow", "single"]): [cyc[(i + 1) % len(cyc)]]})
+    for v1 in range(6):
+        p1 = Sem(rules, {L: v1}).ev(L)[0] % 2
+        p2 = Sem(rules, {L: v1 + 1}).ev(L)[0] % 2
+        if p1 != p2:
+            break
+    acyc = [other] if rng.random() < 0.5 else []
+    rules[R0] = dict(sig=0, obs=0, req=[L], br=(0, acyc, [path[0]]) if p1 == 0 else (0, [path[0]], acyc))
+    restart = rng.random() < 0.5
+    return dict(family="recorded", rules1=rules, env1={L: v1, other: 1}, root1=R0, rules2=rules, env2={L: v1 + 1, other: 1}, root2=R0,
+                discipline=True, restart=restart, db=1 if restart else rng.choice([0, 1]))
+
+
 def corpus_cases():
     """Hand-written scenarios: the two unit tests, and the shapes named in the task."""
     out = []
@@ -598,6 +636,10 @@ def corpus_cases():
     out.append(dict(family="recorded", name="edit-introduces-cycle",
                     rules1={1: R(req=[2]), 2: R(req=[3]), 3: R(obs=1)}, env1={3: 1}, root1=1,
                     rules2={1: R(req=[2]), 2: R(req=[3]), 3: R(sig=1, obs=1, req=[1])}, env2={3: 1}, root2=1, discipline=True))
+    # the requested key was built before and is re-run; the cycle lies among keys never built and does not contain it
+    out.append(dict(family="recorded", name="rebuilt-key-cycle-elsewhere", restart=False, db=0,
+                    rules1={1: R(req=[2], br=(0, [], [10])), 2: R(obs=1), 10: R(req=[11]), 11: R(req=[10])}, env1={2: 0}, root1=1,
+                    rules2={1: R(req=[2], br=(0, [], [10])), 2: R(obs=1), 10: R(req=[11]), 11: R(req=[10])}, env2={2: 1}, root2=1, discipline=True))
     return out
 
 
@@ -690,6 +732,10 @@ def run(chk, only=None):
             c = gen_recorded(rng)
             c["sched"] = sched()
             recorded.append(c)
+        for i in range(chk.n(40, 800)):
+            c = gen_rebuilt_key(rng)
+            c["sched"] = sched()
+            recorded.append(c)
         # discovered dependencies on non-leaf keys (the two findings live here)
         for c in disc_corpus():
             for s in scheds[:3]:
@@ -750,6 +796,15 @@ def run(chk, only=None):
         rres = list(ex.map(do_rec, list(enumerate(recorded))))
     for i, rc, out, err in rres:
         c = recorded[i]
+        if rc not in (0, -9):
+            sem1, sem2 = Sem(c["rules1"], c["env1"]), Sem(c["rules2"], c["env2"])
+            w1, w2 = sem1.build(c["root2"])[0], sem2.build(c["root2"])[0]
+            on_cycle = any(_reaches(sem2.real, d, c["root2"]) for d in sem2.real.get(c["root2"], ()))
+            if w1 is not None and w2 is None and not on_cycle and sem1.build(c["root1"])[0] is not None and c["root2"] in sem1.val:
+                J.viol("crash-cycle-outside-rebuilt-key", "the engine crashed (exit code %d): the requested key %d was built before, is re-run, and now waits on a cycle that does not "
+                       "contain it (breakCycle dereferences the element before the first one of the list: *std::next(ruleIt) at rend())" % (rc, c["root2"]),
+                       c, dict(rc=rc, stderr=err[-1500:], output=out[-40:]), broken="c07 oracle: the build terminates with failure and reports the cycle")
+                continue
         if rc != 0:
             J.viol("hang-or-crash", "the engine %s on this two-build history" % ("did not terminate within 30 s" if rc == -9 else "crashed (exit code %d)" % rc),
                    c, dict(rc=rc, stderr=err[-1500:], output=out[-40:]), broken="c07 oracle: the build terminates")
